@@ -173,6 +173,8 @@ type c13Case struct {
 	emptyNth  int    // the n-th READ BINARY that reaches the file (1 = header probe) is answered without data ...
 	emptyFrom bool   // ... and so is every later one (false: only that one)
 	emptySW   uint16 // ... with this status (0 = 9000)
+	warnNth   int    // the n-th READ BINARY is answered with ALTERED data of the right length ...
+	warnSW    uint16 // ... under this status word (not 9000, not 6282): the data must not be used
 	hdrLit    string // hex: the header probe is answered with these bytes (and 9000) instead of the file's
 	blank     int    // 1 / 2: the stored file consists of 00 / FF bytes only (no data object to return)
 }
@@ -184,6 +186,9 @@ func (cs c13Case) String() string {
 	}
 	if cs.selOn {
 		s += fmt.Sprintf(" select-sw=%04x prior=%v", cs.selSW, cs.prior)
+	}
+	if cs.warnNth != 0 {
+		s += fmt.Sprintf(" altered-data-under=%04x@read%d", cs.warnSW, cs.warnNth)
 	}
 	if cs.emptyNth != 0 || cs.hdrLit != "" || cs.blank != 0 {
 		s += fmt.Sprintf(" empty=%d/from=%v/%04x hdrlit=%q blank=%d prior=%v", cs.emptyNth, cs.emptyFrom, cs.emptySW, cs.hdrLit, cs.blank, cs.prior)
@@ -453,6 +458,12 @@ func runC13(c *fw.Ctx) {
 	}
 	c.Cases(len(cases), func(i int) string { return "read|" + cases[i].String() }, func(i int, k *fw.K) {
 		c13Run(k, cases[i])
+	})
+	// a READ BINARY answered with altered data under a warning / error status that is not a
+	// success (6281 "part of the returned data may be corrupted", 6283, 62xx, 63xx, 64xx ...)
+	warn := c13WarnCases()
+	c.Cases(len(warn), func(i int) string { return "read-warn|" + warn[i].String() }, func(i int, k *fw.K) {
+		c13Run(k, warn[i])
 	})
 	// read histories: several ReadFile calls on one session against one chip
 	directed := c13DirectedHistories()
